@@ -75,7 +75,11 @@ func (rc *RunCtx) Tick() uint64 { rc.tick++; return rc.tick }
 // scenario serves, it is kept as a cross-property observation.
 func (rc *RunCtx) Fail(prop, oracle, class, format string, args ...any) {
 	v := Violation{Prop: prop, Oracle: oracle, Class: class, Detail: fmt.Sprintf(format, args...)}
-	for _, p := range rc.Sc.Props {
+	props := rc.Sc.Props
+	if rc.Sc.CrashTo != "" {
+		props = append(append([]string(nil), props...), strings.Split(rc.Sc.CrashTo, ",")...)
+	}
+	for _, p := range props {
 		if p == prop {
 			if len(rc.viol) < 20 {
 				rc.viol = append(rc.viol, v)
